@@ -79,7 +79,7 @@ func propC04(w *World, r *Run) {
 }
 
 func propC07(w *World, r *Run) {
-	r.expl = "Decides the error discipline on storage calls: first use only under an affirmative NotFound test on GetLatest's error, every other read error refuses with no Sign/Set (TOFU-ONLY-ON-NOTFOUND); every path that opened a write operation closes it at exit and never before Set (CLOSE-ALWAYS); no success is reachable with an unchecked error of WriteOps/GetLatest/parse-of-stored/Sign/Set/Exec/Commit/Begin/Scan (ERR-NOT-DROPPED); the SQL store builds NotFound only from sql.ErrNoRows and the in-memory store only from an absent entry (NOTFOUND-EXACT); the adapter maps only NotFound to os.ErrNotExist (ADAPTER); WriteOps leaks no transaction (NO-LEAKED-TX)."
+	r.expl = "Decides the error discipline on storage calls: first use only under an affirmative NotFound test on GetLatest's error and, on the compositions with the stores, only when the store established absence (sql.ErrNoRows / missing map entry; errors of database/sql are assumed not to be gRPC statuses) (TOFU-ONLY-ON-NOTFOUND, NOTFOUND-EXACT); every path that opened a write operation closes it at exit and every transaction begun is rolled back at exit (CLOSE-ALWAYS, NO-LEAKED-TX); no success is reachable with an unchecked error of WriteOps/GetLatest/parse-of-stored/Sign/Set or of any database/sql call (ERR-NOT-DROPPED); reads return the column scanned in this call, never state kept outside the database (READS-DURABLE); the adapter maps only NotFound to os.ErrNotExist (ADAPTER); no failing outcome of Update is answered 200 by the bastion endpoint (NO-FALSE-SUCCESS)."
 	r.notdec = []string{"behaviour of database/sql's pool under faults", "that the next operation completes (follows from CLOSE-ALWAYS/NO-LEAKED-TX plus the pool's contract)"}
 	r.trusted = append(tbCommon, "database/sql, grpc/status.Code")
 	a := analyseUpdate(w, r)
@@ -140,7 +140,7 @@ func init() {
 }
 
 func propC05(w *World, r *Run) {
-	r.expl = "Schedules are not enumerable statically. Decides the structural mechanisms without which the property fails: read-verify-write on one write handle (SAME-HANDLE); every access to the in-memory checkpoint map lies between a lock and its release on all exits, writes only under the exclusive lock (LOCKSET); the map is written only on paths whose facts include equality of the caller's snapshot with the value re-read inside the same critical section (COMPARE-AND-SET); the handle's Set passes the snapshot taken at WriteOps and its write closure is bound to the same log (SNAPSHOT-PAIRING); the SQL write handle reads, executes and commits on the one transaction begun by WriteOps (TXN-SCOPE); package-level variables are assigned only at init or in Once.Do, configuration fields only by constructors (GLOBALS/IMMUT); checkpoint bytes are never modified in place (NO-INPLACE-MUTATION)."
+	r.expl = "Schedules are not enumerable statically. Decides the structural mechanisms without which the property fails, on the compositions of Update/GetCheckpoint/GetLogs with each concrete store (the store's handle types and helper functions are inlined, so the rules do not depend on how a store is organised): read-verify-write on one write handle (SAME-HANDLE); every access to the in-memory checkpoint map lies between a lock and its release on all exits, writes only under the exclusive lock, no re-entrant locking (LOCKSET); the map is written only after the same key was re-read inside the writing critical section (lock epochs distinguish reads of different critical sections) and found equal to the snapshot taken when the write operation was opened, under the request's log ID and with the cosigned bytes (COMPARE-AND-SET / SNAPSHOT-PAIRING); the SQL path reads, executes and commits on the one transaction begun for the update and rolls it back at exit (TXN-SCOPE); first use needs affirmative absence; package-level variables are assigned only at init or in Once.Do, configuration fields only by constructors (GLOBALS/IMMUT); checkpoint bytes are never modified in place (NO-INPLACE-MUTATION)."
 	r.notdec = []string{"linearizability itself (no schedule is explored)", "SQLite's isolation and the single-connection pool (db.SetMaxOpenConns(1) is listed as informational only)", "data races outside these structures (no race detector is run: different technique family)"}
 	r.trusted = append(tbCommon, "sync.RWMutex, database/sql transactions, SQLite isolation")
 	a := analyseUpdate(w, r)
@@ -178,7 +178,7 @@ func init() {
 }
 
 func propC10(w *World, r *Run) {
-	r.expl = "Decides the endpoint's status mapping by composition: the outcome classes (error sentinel, bytes class) of the real Update, taken from its path summaries, are matched against handleUpdate's paths (facts on trusted == nil, the parse of the returned checkpoint, the sentinel comparisons), and each class must be answered by exactly one path with the protocol's status: accepted 200, unknown log 404, no valid signature 403, old size too large 400, stale 409 + text/x.tlog.size + \"%d\\n\" of the current size, root mismatch 409, bad proof 422, anything else 500 (STATUS-TABLE); the limiter is consulted first and a refused request is answered 429 without touching the body (RATE-LIMIT-FIRST); every path writes exactly one documented status before any body (EXACTLY-ONE-STATUS); the 200 body is built from signatures verified under the witness's own verifier on the bytes Update returned (BODY-PROVENANCE); malformed body/no first line -> 400, unknown origin -> 404 without reaching the witness, and the witness is asked with (ID(first line), configured origin, parseBody's results unmodified) (PRE-CHECKS)."
+	r.expl = "Decides the endpoint by composition: ServeHTTP is explored once per outcome class (error sentinel x bytes class) of the real Update, taken from Update's own path summaries, with the witness call answered by that class and every helper of the handler inlined; every path that reaches the witness must write exactly one constant status and it must be the protocol's: accepted 200, unknown log 404, no valid signature 403, old size too large 400, stale 409 + text/x.tlog.size + the decimal current size and newline, root mismatch 409, bad proof 422, anything else 500 (STATUS-TABLE, independent of how the table is written); the limiter is consulted first, exactly once, through Allow, and a refused request is answered 429 without touching the body (RATE-LIMIT-FIRST); every path writes exactly one documented status before any body (EXACTLY-ONE-STATUS); the 200 body is built from signatures verified under the witness's own verifier on the bytes Update returned, and 200 needs a committed store (BODY-PROVENANCE, ACK-IMPLIES-COMMIT); malformed body/no first line -> 400, unknown origin -> 404 without reaching the witness, and the witness is asked with (ID(first line), parseBody's results unmodified) of a configured log (PRE-CHECKS); metric labels never carry request bytes and the witness's bytes are never written through (HYGIENE)."
 	r.notdec = []string{"TLS/HTTP2 transport and the reverse connection", "that the cosignature verifies (crypto)", "the limiter's numeric rate"}
 	r.trusted = append(tbCommon, "net/http ResponseWriter contract, rate.Limiter.Allow, formats/log.ParseCheckpoint")
 	a := analyseUpdate(w, r)
